@@ -115,7 +115,7 @@ Proof.
       inversion H; subst. simpl in S.
       pose proof (unpack_depth fs) as U. clear - U S.
       induction U as [|x l Hx _ IH]; simpl; [constructor|].
-      destruct (exported (sf_name x)); [constructor; [unfold dle in *; lia | exact IH] | exact IH].
+      destruct (xexported (sf_name x)); [constructor; [unfold dle in *; lia | exact IH] | exact IH].
     + inversion H; fa; unfold dle; lia.
   - unfold setslice_mangle in H.
     destruct (sf_ty f) as [| | | | |k v nm| | | |] eqn:T; try (inversion H; fa; unfold dle; rewrite T; lia).
@@ -185,7 +185,7 @@ Lemma xlate_layer_ext m lf : depth_ok m -> Forall (dle d) lf ->
   (forall lf' st, xlate_layer sub1 m lf = Ok (lf', st) -> Forall (dle d) lf').
 Proof.
   intros Hm. induction 1 as [|f r Hf _ [IH1 IH2]]; simpl; [split; [reflexivity | intros ? ? H; inversion H; constructor]|].
-  destruct (negb (exported (sf_name f))).
+  destruct (negb (xexported (sf_name f))).
   - rewrite <- IH1. split; [reflexivity|]. intros lf' st H. dob H b Hb. inversion H; subst.
     destruct b as [b1 b2]. eapply IH2; reflexivity.
   - destruct (mangle m f) as [outs| |] eqn:Hmg; simpl; try (split; [reflexivity | intros ? ? H; discriminate]).
